@@ -500,7 +500,7 @@ ROUND_E = {
     "C13": ("a fifth of the histories query the database (diagnostics, symbols, analyze, expression types) before it has ever held a file.", {"queries_before_the_first_file": 100}),
     "C14": ("a tenth of the initial texts start with a byte order mark (one UTF-16 unit of line 0 in the editor's text).", {"histories_on_texts_starting_with_a_byte_order_mark": 10}),
     "C15": ("text class `composed` gained 10 lines whose string literals hold comment / pragma delimiters (`'http://..'`, `'(* x *)'`, `'{p}'`, `'*) // (*'`) followed by real comments.", {}),
-    "C16": ("fixed project `twin`: two function-block files of identical layout (every declaration of one sits at the byte range of a declaration of the other) and a program using both, in both load orders.", {}),
+    "C16": ("fixed project `twin`: two function-block files of identical layout (every declaration of one sits at the byte range of a declaration of the other) and a program using both, in both load orders. Fixed projects `literals`: an enumeration whose literals are written `E_State#Idle` and a structure initialised with `(fa := 3, fb := 4)` - names that occur where no identifier token / field expression stands.", {}),
     "C18": ("part X (parameters at the extremes): for every request type each plausible parameter (for config.set every key scraped from handle_config_set, except control.auth_token) is replaced in turn by 27 extreme values (integer limits, the ms->ns overflow boundary, 1e308, empty / 70 kB / NUL strings, absurd addresses and durations, null, arrays, objects, 100-fold nesting) "
             "and sent with the admin credential: one parseable reply line, config.get still served afterwards, and a caller without a credential still refused.", {"X_extreme_requests": 3000, "X_unauthenticated_follow_ups_refused": 1500}),
     "C19": ("part B2: one file under two path names inside the project (a hard link), two editor sessions that each use their own name, strictly alternating calls: a write based on a content that is no longer the file's content must be refused whichever name it comes through.",
